@@ -576,6 +576,10 @@ namespace bloch::runtime {
         m_gcThreadStarted = false;
         m_allocSinceGc = 0;
         m_sim = QasmSimulator{m_collectQasmLog};
+        // Functions first: static initialisers (and constructors they run) may call them.
+        for (auto& fn : program.functions) {
+            m_functions[fn->name] = fn.get();
+        }
         bool hasClasses = !program.classes.empty();
         if (hasClasses) {
             buildClassTable(program);
@@ -592,9 +596,6 @@ namespace bloch::runtime {
                     initStaticFields(it->second.get());
             }
             ensureGcThread();
-        }
-        for (auto& fn : program.functions) {
-            m_functions[fn->name] = fn.get();
         }
         auto it = m_functions.find("main");
         if (it != m_functions.end()) {
